@@ -1,2 +1,3 @@
 /* ops_all.h: includes every op family beyond ops_basic and lists their dispatchers. */
-#define OPS_ALL_FAMILIES
+#include "ops_generator.h"
+#define OPS_ALL_FAMILIES ops_generator,
